@@ -41,6 +41,8 @@ FlK = flat(a:u8,*i:InnerUS)
 FlMK = flat(a:u8,*m:bmap(string,US))
 FlMC = flat(a:u8,*m:bmap(string,char))
 Hr = newtype(u8)
+SkipS = struct(a:u8,b_s:opt(u8),c:opt(string),d_s:opt(P2),e:bool)
+SkipE = enum(A|D{x:u8,y_s:opt(i8),z_s:opt(string)})
 InnerB = struct(s:strref,n:u8)
 IntB = internal(t;S{s:strref,n:u8}|U|N(InnerB))
 AdjB = adjacent(t,c;S(strref)|U|N(InnerB))
@@ -97,6 +99,11 @@ let rec shape_of_expr (s : string) : shape =
 let field_of (s : string) : bytes * shape =
   let i = String.index s ':' in
   (bytes_of_string (String.sub s 0 i), shape_of_expr (String.sub s (i + 1) (String.length s - i - 1)))
+
+(* whether parse_s drops the None fields carrying skip_serializing_if (the call tree the derived Serialize produces) or keeps
+   them (the value, for printing) *)
+let skip_filter = ref true
+let skip_name (n : bytes) : bool = (match List.rev n with c2 :: c1 :: _ -> string_of_n c1 = "95" && string_of_n c2 = "115" | _ -> false)
 
 let variant_of (s : string) : bytes * (vkind * shape) =
   let n = String.length s in
@@ -273,7 +280,10 @@ let rec parse_s (sh : shape) (p : ps) : sval =
       SMap ((if known then Some (n_of_int (List.length l / 2)) else None), l)
   | ShStruct fs ->
       let l = comma_sep p (List.map (fun (_, a) () -> parse_s a p) fs) in
-      SStruct (nlen l, List.map2 (fun (n, _) v -> (n, v)) fs l)
+      (* a field whose name ends in `_s` carries #[serde(skip_serializing_if = "Option::is_none")]: the derived Serialize leaves it
+         out of the announced length and calls skip_field (a no-op in the bridge) instead of serialize_field *)
+      let kept = List.filter (fun (n, v) -> not (!skip_filter && skip_name n && v = SNone)) (List.map2 (fun (n, _) v -> (n, v)) fs l) in
+      SStruct (nlen kept, kept)
   | ShEnum vs ->
       let (i, name, k, s) = parse_variant_head vs p in
       let r = (match k with
@@ -422,7 +432,7 @@ let ser_handler (args : string list) : string =
       let value = parse_s sh { s = v; i = 0 } in
       let spec_bytes = ser (prefer (serde_doc_tree value)) in
       let spec_wf = (match one_item spec_bytes with Some e -> wf e | None -> false) in
-      let vtext = show_s sh value in
+      let vtext = (skip_filter := false; let full = parse_s sh { s = v; i = 0 } in skip_filter := true; show_s sh full) in
       let spec =
         if not spec_wf then "?spec-not-one-item"
         else if opt_in_opt sh then "-"
